@@ -84,7 +84,7 @@ func (t *IterableType) IsAssignable(o px.Type, g px.Guard) bool {
 	var et px.Type
 	switch o := o.(type) {
 	case *ArrayType:
-		if o.size.max == 0 {
+		if o.size.max <= 0 {
 			// only the empty array: nothing to iterate over
 			return true
 		}
@@ -92,7 +92,7 @@ func (t *IterableType) IsAssignable(o px.Type, g px.Guard) bool {
 	case *BinaryType:
 		et = NewIntegerType(0, 255)
 	case *HashType:
-		if o.size.max == 0 {
+		if o.size.max <= 0 {
 			return true
 		}
 		et = o.EntryType()
@@ -109,7 +109,7 @@ func (t *IterableType) IsAssignable(o px.Type, g px.Guard) bool {
 		}
 		return true
 	case *TupleType:
-		if o.givenOrActualSize.max == 0 {
+		if o.givenOrActualSize.max <= 0 {
 			return true
 		}
 		if len(o.types) == 0 {
